@@ -2,13 +2,19 @@
 import json, os
 from . import common as C
 
-CLAIMED = {
- "C16": dict(
-   technique="Lean 4 proof (exactness of compareNumeric/cmpIntFloat/multipleOfInts over all of Int and all dyadic floats) + differential correspondence model vs pkg/validate and real numeric schemas",
-   text="Theorems c16_cmp / c16_int_cmp / c16_int_float_cmp / c16_multiple_int prove, for every operand pair of every Go numeric kind, that the transcribed comparison and integer-multiple algorithms equal the mathematical relation (NaN unordered). The hand-written model is tied to /repo by running both on exhaustive 8-bit (thorough: 16-bit) enumerations and a 2^k-boundary grid over all 144 kind pairs, directly and through real schemas.",
-   note="Trusted: Lean kernel; axioms propext/Classical.choice/Quot.sound only; the Go harness and comparer; Go float64 operators and math.Trunc being IEEE-754. Float MultipleOf (documented epsilon rule) is not modelled. The model is a hand transcription validated on generated cases, not for all inputs.",
-   design="DESIGN.md §5 C16"),
-}
+import importlib, glob
+
+def collect():
+    """Every vlib/cXX.py that defines MANIFEST = dict(technique=, text=, note=, design=[, category=]) is a claimed check."""
+    claimed = {}
+    for f in sorted(glob.glob(os.path.join(C.VERIF, "vlib", "c[0-9][0-9].py"))):
+        pid = os.path.basename(f)[:-3].upper()
+        mod = importlib.import_module("vlib." + pid.lower())
+        if getattr(mod, "MANIFEST", None):
+            claimed[pid] = mod.MANIFEST
+    return claimed
+
+CLAIMED = collect()
 
 ALL = ["C%02d" % i for i in range(1, 21)]
 NOT_YET = "check not built yet in this round (planned: see DESIGN.md §5); no claim is made"
